@@ -36,7 +36,7 @@ const (
 
 // canonical non-negative decimal: no sign, no leading zeros (except "0"), at least one digit
 func canonLen(b []byte) (int, bool) {
-	if len(b) == 0 || len(b) > 9 {
+	if len(b) == 0 || len(b) > 10 {
 		return 0, false
 	}
 	if b[0] == '0' && len(b) > 1 {
@@ -87,7 +87,7 @@ func ParseRequestStrict(b []byte) (args [][]byte, n int, st int) {
 		return nil, 0, st
 	}
 	cnt, ok := canonLen(line[1:])
-	if !ok || cnt < 1 {
+	if !ok || cnt < 1 || cnt > 1024*1024 { // Redis: "invalid multibulk length"
 		return nil, 0, ParseMalformed
 	}
 	pos := k
@@ -103,15 +103,12 @@ func ParseRequestStrict(b []byte) (args [][]byte, n int, st int) {
 			return nil, 0, st
 		}
 		l, ok := canonLen(line[1:])
-		if !ok {
+		if !ok || l > 512*1024*1024 { // Redis: "invalid bulk length" (proto-max-bulk-len)
 			return nil, 0, ParseMalformed
 		}
 		pos += k
 		if pos+l+2 > len(b) {
-			// check what is there so far does not already contradict
-			if pos+l < len(b) && b[pos+l] != '\r' {
-				return nil, 0, ParseMalformed
-			}
+			// the terminator is judged when both of its bytes are there (as a parser reading it in one piece does)
 			return nil, 0, ParseIncomplete
 		}
 		if b[pos+l] != '\r' || b[pos+l+1] != '\n' {
